@@ -252,8 +252,13 @@ func (e *Engine) globalPtr(st *State, g *ssa.Global) Value {
 		panic(retrySignal{})
 	}
 	et := g.Type().(*types.Pointer).Elem()
+	before := st.nextObj
 	p := st.allocFor(et)
 	st.globals[g] = p.Obj
+	if st.sharedMax != 0 {
+		// a package-level variable first touched during the monitored call is shared state all the same
+		st.lateGlobals = append(st.lateGlobals, [2]int{before + 1, st.nextObj})
+	}
 	name := g.String()
 	if g.Pkg == nil || !e.allow(g.Pkg.Pkg.Path()) {
 		// dependency global: override or synthesize
@@ -622,7 +627,7 @@ func (e *Engine) step(st *State) {
 		e.set(fr, x, MapV{id})
 	case *ssa.MapUpdate:
 		m := e.val(st, fr, x.Map).(MapV)
-		if st.sharedMax != 0 && m.Obj != 0 && m.Obj <= st.sharedMax && st.onceDepth == 0 && st.lockDepth == 0 {
+		if st.sharedMax != 0 && m.Obj != 0 && st.isShared(m.Obj) && st.onceDepth == 0 && st.lockDepth == 0 {
 			e.sharedWrite(st, m.Obj, "map update")
 		}
 		e.mapUpdate(st, m, e.val(st, fr, x.Key), e.val(st, fr, x.Value))
@@ -1665,7 +1670,7 @@ func (e *Engine) selectOp(st *State, fr *Frame, x *ssa.Select) Value {
 // vSharedEnd every write to an object that existed at vSharedBegin, made outside a sync.Once
 // body and without a held mutex, is a data race between two concurrent calls of the method.
 func (e *Engine) recordAccess(st *State, p Ptr, write bool) {
-	if !write || st.sharedMax == 0 || p.Obj == 0 || p.Obj > st.sharedMax || st.onceDepth > 0 || st.lockDepth > 0 {
+	if !write || st.sharedMax == 0 || p.Obj == 0 || !st.isShared(p.Obj) || st.onceDepth > 0 || st.lockDepth > 0 {
 		return
 	}
 	e.sharedWrite(st, p.Obj, "store")
